@@ -54,4 +54,25 @@ def foldNR (dbg : Bool) (f : Tree → Bool) : List PItem → (md : Nat) → (ski
         | nxt :: _ => decide (nxt.depth < md)
         | [] => false)
 
+/-- the repaired visit (`Post.visitFixed`) as a fold.  The only difference from `foldNR`: after a
+reported match the next node of the post-order is skipped iff its depth is smaller than the
+match's depth — i.e. iff it is the match's parent, reached because the match was a last child
+(the same test the code already made after a node that fails). -/
+def foldNRFixed (dbg : Bool) (f : Tree → Bool) : List PItem → (md : Nat) → (skipping : Bool) → TM (List Tree)
+  | [], _, _ => .ok []
+  | it :: rest, _, true => foldNRFixed dbg f rest it.depth it.last
+  | it :: rest, md, false =>
+    if f it.node then
+      if dbg && it.depth < md then .error .debugAssert
+      else
+        match foldNRFixed dbg f rest it.depth (match rest with
+          | nxt :: _ => decide (nxt.depth < it.depth)
+          | [] => false) with
+        | .ok xs => .ok (it.node :: xs)
+        | .error e => .error e
+    else
+      foldNRFixed dbg f rest md (match rest with
+        | nxt :: _ => decide (nxt.depth < md)
+        | [] => false)
+
 end AGV
